@@ -197,3 +197,86 @@ func JoinTokens(r *Rng, toks []string, mode int) string {
 	}
 	return sb.String()
 }
+
+// RandomGroupFormula draws a formula holding several large exactly-one groups over overlapping variable
+// sets (same variables in another order, same first / last variable and size, shifted windows, as the rows,
+// columns and boxes of a grid puzzle do), conjoined with a few literals or clauses. Groups stay in positive
+// position unless negOK.
+func RandomGroupFormula(r *Rng, negOK bool) *ref.F {
+	n := r.Range(5, 9)
+	names := func(idx []int) []string {
+		res := make([]string, len(idx))
+		for i, v := range idx {
+			res[i] = varName(v + 1)
+		}
+		return res
+	}
+	size := r.Range(5, n)
+	base := r.Perm(n)[:size]
+	groups := [][]int{append([]int{}, base...)}
+	for k := r.Range(1, 2); k > 0; k-- {
+		g := append([]int{}, base...)
+		switch r.Intn(5) {
+		case 0: // same variables, first kept, rest shuffled
+			p := r.Perm(size - 1)
+			for i, j := range p {
+				g[i+1] = base[j+1]
+			}
+		case 1: // first and last kept, middle shuffled
+			p := r.Perm(size - 2)
+			for i, j := range p {
+				g[i+1] = base[j+1]
+			}
+		case 2: // one middle variable replaced by a variable outside the group, same size
+			if size < n {
+				used := map[int]bool{}
+				for _, v := range base {
+					used[v] = true
+				}
+				for v := 0; v < n; v++ {
+					if !used[v] {
+						g[r.Range(1, size-2)] = v
+						break
+					}
+				}
+			} else {
+				g[1], g[2] = g[2], g[1]
+			}
+		case 3: // fully shuffled
+			p := r.Perm(size)
+			for i, j := range p {
+				g[i] = base[j]
+			}
+		default: // another window of the variables, same first variable
+			p := r.Perm(n)
+			g = g[:0]
+			g = append(g, base[0])
+			for _, v := range p {
+				if v != base[0] && len(g) < size {
+					g = append(g, v)
+				}
+			}
+		}
+		groups = append(groups, g)
+	}
+	f := &ref.F{Op: "and"}
+	for _, g := range groups {
+		var gf *ref.F = &ref.F{Op: "uniq", Names: names(g)}
+		if negOK && r.Chance(1, 6) {
+			gf = &ref.F{Op: "not", Kids: []*ref.F{gf}}
+		}
+		f.Kids = append(f.Kids, gf)
+	}
+	o := FormulaOpts{MaxDepth: 2, NbVars: n, Xor: true}
+	for k := r.Intn(3); k > 0; k-- {
+		if r.Bool() {
+			f.Kids = append(f.Kids, &ref.F{Op: "var", Name: varName(r.Intn(n) + 1)})
+		} else {
+			f.Kids = append(f.Kids, RandomFormula(r, o, 1, false))
+		}
+	}
+	if r.Chance(1, 4) { // the whole thing as one disjunct
+		f = &ref.F{Op: "or", Kids: []*ref.F{f, RandomFormula(r, o, 1, false)}}
+	}
+	return f
+}
